@@ -67,7 +67,11 @@ CHECKS = {
        "persistent closes and session-keeping reconnects included): a handled id stays handled through every call that is not a release point "
        "(PUBREL for it, error PUBREC sent for it, clean-start CONNECT, CONNACK without session, non-persistent close, restore), so a v3.1.1 "
        "retransmission after any such history is not notified (C07_handled_until_released, by a walker over every function of the model). "
-       "PARTIAL (C07_partial): 'a first PUBLISH is notified' over histories and the v5.0 duplicate path are decided by the monitor mon_c07 "
+       "PER CALL, both versions, every state (Qos2Dup): a first QoS 2 PUBLISH is notified exactly once and becomes handled; a retransmission is "
+       "not notified and, on an established connection, answered with PUBREC whether or not automatic responses are on. THE CONVERSE OVER "
+       "HISTORIES (C07_not_handled_until_entered, Qos2Sub: a second walk through every function): an identifier enters the handled set only "
+       "through a received packet that carries it or through restore, so after any history through which it could not enter a PUBLISH with "
+       "it is notified — none is swallowed. On the model side nothing is left to the monitor alone; the implementation is judged by mon_c07 "
        "(ghost set of notified-and-unreleased ids from the events; a retransmission on an established connection must be answered with "
        "PUBREC whether or not automatic responses are on; restore_qos2_publish_handled REPLACES the set, at any point of a history) and the "
        "correspondence.",
